@@ -772,6 +772,7 @@ func (c *Check) staleRecordRule(rule string, fn *ssa.Function, s *ssa.Call, mut 
 		sHere := s
 		var useHere ssa.Instruction = call
 		liftArgs := false
+		sibling := false
 		if s.Parent() != home {
 			if li, _ := liftTo(home, s).(*ssa.Call); li != nil {
 				sHere = li
@@ -779,6 +780,10 @@ func (c *Check) staleRecordRule(rule string, fn *ssa.Function, s *ssa.Call, mut 
 				// the write sits in a new helper called after the settlement: compared at the helper's call, with the
 				// helper's parameters read as the caller's arguments
 				home, useHere, liftArgs = s.Parent(), lu, true
+			} else if ls, _ := liftTo(fn, s).(*ssa.Call); ls != nil && liftTo(fn, call) != nil {
+				// settlement and write sit in two sibling helpers of the entry point: compared at their calls there
+				home, sHere, useHere, liftArgs = fn, ls, liftTo(fn, call), true
+				sibling = true
 			} else {
 				continue
 			}
@@ -800,6 +805,14 @@ func (c *Check) staleRecordRule(rule string, fn *ssa.Function, s *ssa.Call, mut 
 			}
 			if liftArgs {
 				a = callerValue(a)
+			}
+			if sibling {
+				// a record that is a local of the helper holding the write was loaded inside that helper, which runs
+				// as a whole after the sibling that settled
+				if al, isAl := stripLoad(a).(*ssa.Alloc); isAl && al.Parent() == call.Parent() && paramOfAlloc(al) == nil {
+					c.Ob(rule, name+": "+kind+" written after settlement was loaded after it ("+calleeMethod(call)+" of "+symShort(a)+")", call.Pos(), true, "")
+					continue
+				}
 			}
 			fresh, why := recordFreshAt(home, a, sHere, useHere)
 			c.Ob(rule, name+": "+kind+" written after settlement was loaded after it ("+calleeMethod(call)+" of "+symShort(a)+")", call.Pos(), fresh, why)
